@@ -84,9 +84,7 @@ class GeckoAsyncFacade(Observable):
         try:
             while True:
 
-                try:
-                    if not self._spa.is_responding_to_pings:
-                        continue
+                if self._spa.is_responding_to_pings:
 
                     self._water_care.change_watercare_mode(
                         await self._spa.async_get_watercare()
@@ -99,13 +97,13 @@ class GeckoAsyncFacade(Observable):
                     # After we've been round here at least once, we're ready
                     self._ready = True
 
-                finally:
-                    wait_time = (
-                        GeckoConfig.FACADE_UPDATE_FREQUENCY_IN_SECONDS
-                        if self._spa.is_responding_to_pings
-                        else GeckoConfig.PING_FREQUENCY_IN_SECONDS
-                    )
-                    await config_sleep(wait_time)
+                # Not in a finally clause, a cancelled task must not sleep
+                wait_time = (
+                    GeckoConfig.FACADE_UPDATE_FREQUENCY_IN_SECONDS
+                    if self._spa.is_responding_to_pings
+                    else GeckoConfig.PING_FREQUENCY_IN_SECONDS
+                )
+                await config_sleep(wait_time)
 
         except asyncio.CancelledError:
             _LOGGER.debug("Facade update loop cancelled")
